@@ -579,9 +579,10 @@ func (c *checker) check(b budgetT, seed uint64) {
 		pub = []any{}
 	}
 
-	// thorough: chunk the value rows so that one answer stays bounded
+	// thorough: chunk the value rows so that one answer stays bounded; each
+	// chunk is compared before the next one is asked for
 	const chunk = 4000
-	var rows, tail []any
+	nt := false
 	for off := 0; off == 0 || off < len(paths); off += chunk {
 		end := min(off+chunk, len(paths))
 		in := map[string]any{"root": rootV, "paths": paths[off:end], "fpaths": []any{}, "whole": false, "pub": []any{}}
@@ -600,31 +601,44 @@ func (c *checker) check(b budgetT, seed uint64) {
 			res.Failf("harness:jq-evaluation-failed", "%v", err)
 			return
 		}
+		nv := end - off
+		if len(out) < nv || (off > 0 && len(out) != nv) {
+			res.Failf("harness:jq-output-shape", "got %d rows for %d paths", len(out), nv)
+			return
+		}
+		if !c.checkValueRows(infos, sel[off:end], out[:nv], &nt) {
+			return
+		}
 		if off == 0 {
-			// value rows of the first chunk come first, the rest follows them
-			nv := end - off
-			if len(out) < nv {
-				res.Failf("harness:jq-output-shape", "got %d rows for %d paths", len(out), nv)
-				return
-			}
-			rows = append(rows, out[:nv]...)
-			tail = out[nv:]
-		} else {
-			rows = append(rows, out...)
+			// the rendering rows follow the value rows of the first chunk
+			c.checkTail(out[nv:], infos, fsel, ffmts, whole, pub, pubIdx)
 		}
 	}
-	if len(rows) != len(sel) {
-		res.Failf("harness:jq-output-shape", "got %d value rows for %d paths", len(rows), len(sel))
-		return
+	if nt {
+		res.NT = true
 	}
+	for _, info := range infos {
+		if info.synthetic {
+			res.Stat("values_synthetic_not_asserted", 1)
+		}
+	}
+}
 
+// checkValueRows compares the "v" rows of the values sel (false: give up).
+func (c *checker) checkValueRows(infos []nodeInfo, sel []int, rows []any, ntOut *bool) bool {
+	tr, res := c.tr, c.res
 	nt := false
+	defer func() {
+		if nt {
+			*ntOut = true
+		}
+	}()
 	for k, i := range sel {
 		info := infos[i]
 		row, _ := rows[k].([]any)
 		if len(row) != 2+len(valueOps) {
 			res.Failf("harness:jq-output-shape", "value row %d has the wrong shape", k)
-			return
+			return false
 		}
 		// make sure the jq value is the value the harness means
 		if treeq.DecodeValueOf(row[1]) != info.n.V {
@@ -676,15 +690,7 @@ func (c *checker) check(b budgetT, seed uint64) {
 			}
 		}
 	}
-	if nt {
-		res.NT = true
-	}
-	c.checkTail(tail, infos, fsel, ffmts, whole, pub, pubIdx)
-	for _, info := range infos {
-		if info.synthetic {
-			res.Stat("values_synthetic_not_asserted", 1)
-		}
-	}
+	return true
 }
 
 // checkTail handles the "f", "w" and "p" rows.
